@@ -43,9 +43,37 @@ type fper struct {
 
 var timeType = reflect.TypeOf(time.Time{})
 
+// stamp recognises an integer that holds an instant of the virtual clock (Unix seconds, milli-,
+// micro- or nanoseconds within a day of now) and renders it like a time.Time: relative to now
+// and clipped. A raw timestamp would otherwise merge states that differ in how long ago it was.
+func (f *fper) stamp(x int64) bool {
+	if f.now.IsZero() || x < 1e9 {
+		return false
+	}
+	for _, u := range []struct {
+		per  int64
+		name string
+	}{{1, "s"}, {1e3, "ms"}, {1e6, "us"}, {1e9, "ns"}} {
+		nowU := f.now.Unix()*u.per + int64(f.now.Nanosecond())/(1e9/u.per)
+		d := x - nowU
+		if d > -86400*u.per && d < 86400*u.per {
+			dd := time.Duration(d) * time.Duration(1e9/u.per)
+			if f.clip > 0 && dd < -f.clip {
+				f.b.WriteString("told" + u.name)
+			} else {
+				fmt.Fprintf(&f.b, "t%s%+d", u.name, dd.Milliseconds())
+			}
+			return true
+		}
+	}
+	return false
+}
+
 func skipType(t reflect.Type) bool {
 	p := t.PkgPath()
-	if strings.HasSuffix(p, "/zzverif/vsync") || p == "sync" || p == "sync/atomic" || strings.HasSuffix(p, "/zzverif/vatomic") {
+	// locks and wait groups are bookkeeping; typed atomics (sync/atomic and its shim) hold data
+	// and are walked like any other struct
+	if strings.HasSuffix(p, "/zzverif/vsync") || p == "sync" {
 		return true
 	}
 	switch p {
@@ -89,9 +117,13 @@ func (f *fper) walk(v reflect.Value, depth int) {
 	case reflect.Bool:
 		fmt.Fprintf(&f.b, "%v", v.Bool())
 	case reflect.Int, reflect.Int8, reflect.Int16, reflect.Int32, reflect.Int64:
-		fmt.Fprintf(&f.b, "%d", v.Int())
+		if !f.stamp(v.Int()) {
+			fmt.Fprintf(&f.b, "%d", v.Int())
+		}
 	case reflect.Uint, reflect.Uint8, reflect.Uint16, reflect.Uint32, reflect.Uint64, reflect.Uintptr:
-		fmt.Fprintf(&f.b, "%d", v.Uint())
+		if v.Uint() > 1<<62 || !f.stamp(int64(v.Uint())) {
+			fmt.Fprintf(&f.b, "%d", v.Uint())
+		}
 	case reflect.Float32, reflect.Float64:
 		fmt.Fprintf(&f.b, "%g", v.Float())
 	case reflect.String:
@@ -220,3 +252,68 @@ func Hash(s string) [2]uint64 {
 	}
 	return [2]uint64{h1, h2}
 }
+
+// FingerprintNovel renders only the state the caller does not already canonicalise by hand:
+// starting from roots it descends through structs declared in the repository under test and
+// emits, fully (reflectively, instants relative to now and clipped), every field whose
+// qualified name "Type.field" is not in known. Harness fingerprints that pick fields by hand
+// append it, so that state added by a change to the code under test (a new cache, cursor or
+// timestamp field) still distinguishes states instead of being merged away; for the tree the
+// known list was generated from it is the empty string.
+func FingerprintNovel(clip time.Duration, known map[string]bool, roots ...interface{}) string {
+	f := &fper{seen: map[uintptr]int{}, now: vrt.Now(), clip: clip}
+	visited := map[uintptr]bool{}
+	var walk func(v reflect.Value, depth int)
+	walk = func(v reflect.Value, depth int) {
+		if !v.IsValid() || depth > 30 {
+			return
+		}
+		switch v.Kind() {
+		case reflect.Ptr:
+			if v.IsNil() || visited[v.Pointer()] {
+				return
+			}
+			visited[v.Pointer()] = true
+			walk(v.Elem(), depth+1)
+		case reflect.Interface:
+			if !v.IsNil() {
+				walk(v.Elem(), depth+1)
+			}
+		case reflect.Slice, reflect.Array:
+			for i := 0; i < v.Len(); i++ {
+				walk(v.Index(i), depth+1)
+			}
+		case reflect.Map:
+			it := v.MapRange()
+			for it.Next() {
+				walk(it.Value(), depth+1) // novel fields are collected, order is normalised below
+			}
+		case reflect.Struct:
+			t := v.Type()
+			if t == timeType || skipType(t) || !strings.Contains(t.PkgPath(), "/internal/") || strings.Contains(t.PkgPath(), "/zzverif/") {
+				if t.Name() == "Map" && strings.HasSuffix(t.PkgPath(), "/zzverif/vsync") {
+					walk(v.FieldByName("m"), depth+1)
+				}
+				return
+			}
+			for i := 0; i < v.NumField(); i++ {
+				q := t.Name() + "." + t.Field(i).Name
+				if known[q] {
+					walk(v.Field(i), depth+1)
+					continue
+				}
+				sub := &fper{seen: map[uintptr]int{}, now: f.now, clip: f.clip}
+				sub.walk(v.Field(i), 0)
+				novel = append(novel, q+"="+sub.b.String())
+			}
+		}
+	}
+	novel = novel[:0]
+	for _, r := range roots {
+		walk(reflect.ValueOf(r), 0)
+	}
+	sort.Strings(novel)
+	return strings.Join(novel, ";")
+}
+
+var novel []string
